@@ -188,7 +188,12 @@ func (n *ThreadedNewsYAML) DeleteArticle(newsPath []string, articleID uint32, _ 
 
 	catName := newsPath[len(newsPath)-1]
 
-	cat := cats[catName]
+	// A path that names no category (a category somebody else just deleted): nothing to delete, and the lookup must not
+	// leave an empty entry of that name behind.
+	cat, ok := cats[catName]
+	if !ok {
+		return fmt.Errorf("news category %q does not exist", catName)
+	}
 	delete(cat.Articles, articleID)
 	cats[catName] = cat
 
